@@ -903,4 +903,58 @@ theorem cells_that_hold (cls : Nat) (a : Nat) (ha : a ∈ followedAttrs) :
       subst hr
       exact ⟨⟨(by decide : a_text_style_name ∈ followedAttrs), by simp [gr1]⟩, Or.inl rfl⟩
 
+/-! ### Sessions: embedded objects, several packages in one process (`loadSession`) -/
+
+/-- the property for the document `d` a process holds for the source parts `p` -/
+def PreservedDoc (p : Pkg) (d : Doc) (s : Site) : Prop :=
+  (∀ m, resolveBefore p s = some m → resolveAt (memPkg d) s = some m) ∧
+  (∀ m, resolveBefore p s = some m → (siteRef (save d) s).isSome = true → resolveAt (save d) s = some m)
+
+theorem loadFrom_empty (p : Pkg) : (loadFrom ⟨[], []⟩ p).1 = load p := rfl
+
+theorem preservedDoc_load (p : Pkg) (s : Site) : PreservedDoc p (load p) s ↔ Preserved p s := Iff.rfl
+
+/-- the k-th document of a session is the document a lone `load` of its parts gives -/
+theorem loadSession_getElem (ps : List Pkg) (k : Nat) : (loadSession ps)[k]? = ps[k]?.map load := by
+  induction ps generalizing k with
+  | nil => simp [loadSession]
+  | cons p ps ih =>
+    cases k with
+    | zero => simp [loadSession, loadFrom_empty]
+    | succ k => simp [loadSession, ih]
+
+/-- **C11 in a session** (`resolve_preserved_partial` for every document of a process): whatever was loaded
+    before — other packages, the parent document of an embedded object, a package whose load failed — the k-th
+    (sub)document, if its own parts are in the class `Handled`, keeps every reference of `HandledSite` on the
+    definition it had in its own source parts, in memory and in every package saved from it. -/
+theorem session_preserved_partial (ps : List Pkg) (k : Nat) (p : Pkg) (d : Doc)
+    (hp : ps[k]? = some p) (hd : (loadSession ps)[k]? = some d) (h : Handled p) (s : Site) (hs : HandledSite p s) :
+    PreservedDoc p d s := by
+  rw [loadSession_getElem, hp] at hd
+  simp only [Option.map_some, Option.some.injEq] at hd
+  subst hd
+  exact (preservedDoc_load p s).mpr (resolve_preserved_partial p h s hs)
+
+/-- an embedded object as an office suite writes it next to `wGood`: its content.xml numbers from `P1` too -/
+def wObject : Pkg :=
+  { cAuto := [⟨true, cParagraph, P1, 20, []⟩]
+    body := [⟨a_text_style_name, P1, cParagraph⟩]
+    common := []
+    sAuto := [⟨true, cParagraph, mName P1, 21, []⟩]
+    master := [⟨a_text_style_name, mName P1, cParagraph⟩] }
+
+/-- **why the rename table must belong to the document**: with one table for the process the body paragraph of
+    the object — a package of the class `Handled`, a site of `HandledSite` — follows the rename `P1 -> MP1` of the
+    document read before it and lands on the header's definition; with the code's `loadSession` it stays. -/
+theorem finding_shared_rename_table :
+    Handled wObject ∧ HandledSite wObject (.body 0) ∧
+    (loadSessionSharedFix [] [wGood, wObject]).map (fun d => resolveAt (memPkg d) (.body 0)) = [some 0, some 21] ∧
+    (loadSessionSharedFix [] [wGood, wObject]).map (fun d => resolveAt (save d) (.body 0)) = [some 0, some 21] ∧
+    (loadSession [wGood, wObject]).map (fun d => resolveAt (memPkg d) (.body 0)) = [some 0, some 20] ∧
+    (loadSession [wGood, wObject]).map (fun d => resolveAt (save d) (.body 0)) = [some 0, some 20] ∧
+    resolveBefore wObject (.body 0) = some 20 := by decide +kernel
+
+example : PreservedDoc wObject ((loadSession [wGood, wObject])[1]) (.body 0) :=
+  session_preserved_partial [wGood, wObject] 1 wObject _ rfl rfl finding_shared_rename_table.1 _ finding_shared_rename_table.2.1
+
 end OdfModel.Props.C11
